@@ -579,7 +579,7 @@ func (db *SingleBucketBackend) ForceDeleteBucket(name string) error {
 		return err
 	}
 	for _, entry := range entries {
-		if err := db.fs.RemoveAll(entry.Name()); err != nil {
+		if err := removeAll(db.fs, entry.Name()); err != nil {
 			return err
 		}
 	}
